@@ -29,6 +29,9 @@ type RCase struct {
 	Down    int      `json:"down"`
 	Emit2   []string `json:"emit2"`
 	Req2    bool     `json:"req2"`
+	// Stopped: number of QueryEvent calls made while the service has no connection (before
+	// the first Serve and between the cycles), through Service.Resource.
+	Stopped int `json:"stopped,omitempty"`
 }
 
 func (c RCase) String() string { b, _ := json.Marshal(c); return string(b) }
@@ -116,6 +119,30 @@ func runRestart(c RCase) (viol []string, nontrivial bool) {
 		<-done
 		synctest.Wait()
 	}
+	// a query event on a service without connection is a failed subscription: one nil call at
+	// once, nothing published, nothing left behind
+	stoppedEmit := func(when string) {
+		for k := 0; k < c.Stopped; k++ {
+			r, err := s.Resource("svc.q.1")
+			if err != nil {
+				viol = append(viol, "Resource: "+err.Error())
+				return
+			}
+			nils, others := 0, 0
+			r.QueryEvent(func(qr res.QueryRequest) {
+				if qr == nil {
+					nils++
+				} else {
+					others++
+				}
+			})
+			synctest.Wait()
+			if nils != 1 || others != 0 {
+				viol = append(viol, fmt.Sprintf("QueryEvent %s (no connection): callback got nil %d times and %d requests, expected exactly one nil call", when, nils, others))
+			}
+		}
+	}
+	stoppedEmit("before the first Serve")
 	exited := serve()
 	for _, rid := range c.Emit1 {
 		emit(rid, 1)
@@ -128,6 +155,7 @@ func runRestart(c RCase) (viol []string, nontrivial bool) {
 		viol = append(viol, "Shutdown: "+err.Error())
 	}
 	<-exited
+	stoppedEmit("between Shutdown and the second Serve")
 	time.Sleep(time.Duration(c.Down) * time.Millisecond)
 	synctest.Wait()
 	s.SetQueryEventDuration(time.Duration(c.D2) * time.Millisecond)
@@ -209,6 +237,7 @@ func TestPropRestart(t *testing.T) {
 			Down:    rapid.SampledFrom([]int{0, 50, 2000, 5000}).Draw(rt, "down"),
 			Emit2:   rapid.SliceOfN(rapid.SampledFrom(ridList), 0, 3).Draw(rt, "emit2"),
 			Req2:    rapid.Bool().Draw(rt, "req2"),
+			Stopped: rapid.SampledFrom([]int{0, 0, 1, 2}).Draw(rt, "stopped"),
 		}
 		var viol []string
 		var nt bool
